@@ -222,6 +222,11 @@ pub fn gen_map(rng: &mut Rng, opts: &GenOpts) -> GenMap {
         };
         let new_combo = if rng.chance(1, 4) { 4 } else { 0 };
         let sound = *rng.pick(&[0u8, 0, 0, 2, 4, 8, 10, 12, 6, 14, 15]);
+        // every fifth object count: long single-colour streaks (taiko: dons, then kats, 20 objects each),
+        // mostly circles - the mono-streak extreme of the taiko stamina / colour skills
+        let mono = mode != 3 && n >= 20 && n % 5 == 2;
+        let sound = if mono { if (i / 20) % 2 == 0 { 0 } else { 8 } } else { sound };
+        let kind = if mono && kind == 1 && i % 7 != 0 { 0 } else { kind };
 
         match kind {
             0 => {
